@@ -48,7 +48,7 @@ def make_config(sock_path, policy_xml=None, limits=None, servicedirs=(), bus_typ
 
 
 class Daemon(object):
-    def __init__(self, build, rundir, config_text, name="bus", leaks=True, env=None, wrapper=()):
+    def __init__(self, build, rundir, config_text, name="bus", leaks=True, env=None, wrapper=(), extra_args=()):
         self.build = build
         self.rundir = rundir
         os.makedirs(rundir, exist_ok=True)
@@ -65,7 +65,7 @@ class Daemon(object):
         e = hrun.san_env(env, leaks=leaks)
         # one log file per daemon; asan writes to stderr (captured below)
         self.errf = open(self.errpath, "wb")
-        self.proc = subprocess.Popen(list(wrapper) + [build.daemon, "--config-file=" + self.conf, "--nofork", "--nopidfile", "--nosyslog"],
+        self.proc = subprocess.Popen(list(wrapper) + [build.daemon, "--config-file=" + self.conf, "--nofork", "--nopidfile", "--nosyslog"] + list(extra_args),
                                      stdin=subprocess.DEVNULL, stdout=subprocess.DEVNULL, stderr=self.errf, env=e,
                                      cwd=rundir)
         self.pid = self.proc.pid
